@@ -341,6 +341,7 @@ class Lowerer:
         if q in SUGAR: return SUGAR[q]
         if q in BUILTIN: return BUILTIN[q]
         if q.startswith('std::initializer_list<') or q.startswith('initializer_list<'): return 'struct osmt_ilist'
+        if q in ('std::string', 'string', 'std::__cxx11::string') or re.match(r'^(std::)?(__cxx11::)?basic_string<char(, std::char_traits<char>, std::allocator<char>\s*)?>$', q): return 'struct osmt_string'
         for cand in (q, 'opensmt::' + q):
             if cand in self.tu.records:
                 return self._record(cand)
@@ -433,7 +434,19 @@ class Lowerer:
         name = ref.get('name', 'fn')
         if name.startswith('operator') and not (name[8:9].isalnum() or name[8:9] == '_'):
             name = 'op_' + OPNAMES.get(name[8:].strip(), sanitize(name[8:]))
+            # free operator of a library type: overloads differ only in their parameter types
+            try:
+                _, ps = split_fn_type((ref.get('type') or {}).get('qualType', ''))
+                name += '__' + '_'.join(self._short(p) for p in ps)
+            except Unsupported:
+                pass
         return sanitize(scopehint + name)
+
+    def _short(self, p):
+        p = self._strip_cv(p)
+        p = re.sub(r'(std::)?(__cxx11::)?basic_string<char(, std::char_traits<char>, std::allocator<char>\s*)?>', 'string', p)
+        p = p.replace('std::string', 'string')
+        return sanitize(p)
 
     # ---------------------------------------------------------------- expressions
     def expr(self, n):
@@ -495,6 +508,11 @@ class Lowerer:
             if i not in self._locals:
                 # a variable that is neither local nor an indexed global (e.g. verif_limits constants)
                 if name.startswith('OSMT_LIM_'): return name
+                if k == 'VarDecl':
+                    # a variable of a class that was not dumped (std::string::npos, ...): an external symbol the stubs define
+                    self.meta.setdefault('extern_vars', [])
+                    if name not in self.meta['extern_vars']: self.meta['extern_vars'].append(name)
+                    return 'OSMT_EXT_' + sanitize(name)
                 raise Unsupported('reference to unknown variable %s at %s' % (name, self.where(n)))
             if self._strip_cv(rt).endswith('&'):
                 return '(*%s)' % self._locals[i]
@@ -682,11 +700,22 @@ class Lowerer:
         return '((t_ulong)sizeof(%s))' % self.expr(n['inner'][0])
 
     # calls
-    def _args(self, params, args):
+    def _args(self, params, args, decl=None):
         out = []
         for idx, a in enumerate(args):
             if a.get('kind') == 'CXXDefaultArgExpr':
-                raise Unsupported('default argument at ' + self.where(a))
+                # lowered callee: the default expression is taken from its parameter declaration; stub: the argument is
+                # omitted (the stub's contract knows its own defaults)
+                dflt = None
+                if decl is not None:
+                    pv = [c for c in decl.get('inner', []) if c.get('kind') == 'ParmVarDecl']
+                    if idx < len(pv):
+                        for c in pv[idx].get('inner', []):
+                            if not c.get('kind', '').endswith('Attr'): dflt = c
+                    if dflt is None: raise Unsupported('default argument without a visible default at ' + self.where(a))
+                    a = dflt
+                else:
+                    continue
             p = params[idx] if idx < len(params) else None
             if p is not None and self._strip_cv(p).endswith('&'):
                 out.append(self.addr(self.expr(a)))
@@ -722,7 +751,7 @@ class Lowerer:
             name = self.fn_cname.get(ci) or self.ext_name(ref, scope)
             sig = '%s %s(%s)' % (self._ctype_s(ret), name, ', '.join((['void *self'] if obj is not None else []) + [self._ctype_s(p) for p in params]))
             self.extern_calls[name] = sig
-        a = self._args(params, args)
+        a = self._args(params, args, fdef if (fdef is not None and not self._is_stub(fdef)) else None)
         if obj is not None: a = [obj] + a
         call = '%s(%s)' % (name, ', '.join(a))
         self._calls.setdefault(self._curname, set()).add(name)
@@ -758,7 +787,7 @@ class Lowerer:
             bt = base['type']
             cls = self._strip_cv((bt.get('desugaredQualType') or bt['qualType'])).rstrip('*& ').strip()
             name = sanitize(cls) + '__' + (sanitize(c['name']) if not c['name'].startswith('operator') else 'op_' + OPNAMES.get(c['name'][8:].strip(), sanitize(c['name'][8:])))
-            a = [obj] + [self.expr(x) for x in args]
+            a = [obj] + [self.expr(x) for x in args if x.get('kind') != 'CXXDefaultArgExpr']
             self._calls.setdefault(self._curname, set()).add(name)
             if name in self.may_throw: self._stmt_may_throw = True
             if n.get('valueCategory') == 'lvalue':
@@ -1332,6 +1361,13 @@ class Lowerer:
                     if k.endswith('Attr') or k.endswith('Type') or k.endswith('Decl'): continue
                     init = c
             tls = '_Thread_local ' if g.get('tls') else ''
+            strs = []
+            def _walk_str(x):
+                if x.get('kind') == 'StringLiteral': strs.append(json.loads(x['value']))
+                for c in x.get('inner', []):
+                    if isinstance(c, dict): _walk_str(c)
+            if init is not None and not ct.startswith('t_'): _walk_str(init)
+            if strs: self.meta.setdefault('string_tables', {})[name] = strs
             self.meta.setdefault('globals', []).append({'cname': name, 'qualified': self.tu.qname[i], 'storage': g.get('storageClass'), 'tls': g.get('tls'), 'type': g['type']['qualType'],
                                                         'line': g.get('loc', {}).get('_line'), 'file': g.get('loc', {}).get('_file')})
             if init is not None and ct.startswith('t_'):
